@@ -247,6 +247,24 @@ func main() {
 					PDUSessionResourceReleaseCommandTransfer: tp.GetPDUSessionResourceReleaseCommandTransfer()}}})
 		}))
 	}
+	// every PDU session identity of the list (in range, boundary and out of range: 300 and 9999 besides 256 and -1) through each of
+	// the three wrappers that take one
+	for _, psi := range append(append([]int64{}, psis...), 300, 9999, 128, 254) {
+		psi := psi
+		amf, ran := pick(amfIds[:7]), pick(ranIds[:7])
+		ip := [4]byte{10, byte(rg.Intn(256)), 0, 255}
+		a := A(amf, ran)
+		a["psi"], a["ip"] = te.Num(psi), ev.Ints(ip[:])
+		r.emit("GetPDUSessionResourceSetupResponse", a, func() ([]byte, error) { return tglib.GetPDUSessionResourceSetupResponse(amf, ran, psi, ip4(ip)) })
+		b := A(amf, ran)
+		b["psi"], b["ip"] = te.Num(psi), ev.Ints(ip[:])
+		r.emit("GetInitialContextSetupResponseForServiceRequest", b, func() ([]byte, error) {
+			return tglib.GetInitialContextSetupResponseForServiceRequest(amf, ran, psi, ip4(ip))
+		})
+		c := A(amf, ran)
+		c["psi"] = te.Num(psi)
+		r.emit("GetPDUSessionResourceReleaseResponse", c, func() ([]byte, error) { return tglib.GetPDUSessionResourceReleaseResponse(amf, ran, psi) })
+	}
 	// every gNB id bit length 22..32 with all bits set (the id must arrive bit for bit, whatever the padding of the last octet)
 	for b := uint64(22); b <= 32; b++ {
 		forceBits, forceOnes = b, true
